@@ -17,6 +17,7 @@ The consistency of these lists is a `decide` obligation in lean/SaModel/Props/C1
 import os
 import re
 import sys
+import tables2   # Generated/{Annotations,AcceptMatrix,ReaderMatrix}.lean (C18, C05, C02): translator/tables2.py
 
 ROOT = os.path.dirname(os.path.dirname(os.path.abspath(__file__)))
 
@@ -285,6 +286,7 @@ def main():
     try:
         repo = repo_root()
         text = render(repo)
+        tables2.run(repo, ROOT, Unrecognised, write_if_changed)
     except Unrecognised as e:
         print(f"translator: source shape not recognised: {e}")
         return 1
